@@ -670,10 +670,11 @@ pub fn check(ctx: &mut Ctx) {
 	];
 	ctx.run_sub(&Routing);
 	ctx.run_sub(&AcrossThreads);
+	ctx.run_sub(&WhileSendStalled);
 }
 
 pub fn replay(file: &serde_json::Value) -> Option<i32> {
-	replay_with(&Routing, file, "C03").or_else(|| replay_with(&AcrossThreads, file, "C03"))
+	replay_with(&Routing, file, "C03").or_else(|| replay_with(&AcrossThreads, file, "C03")).or_else(|| replay_with(&WhileSendStalled, file, "C03"))
 }
 
 // ---------------------------------------------------------------------------------------------
@@ -781,3 +782,32 @@ impl SubCheck for AcrossThreads {
 
 #[allow(dead_code)]
 fn _unused(_: HashMap<u8, u8>) {}
+
+// ---------------------------------------------------------------------------------------------
+// an answer arrives while the transport's send is stalled and the request queue is full (scenario shared with C05)
+// ---------------------------------------------------------------------------------------------
+
+pub struct WhileSendStalled;
+
+impl SubCheck for WhileSendStalled {
+	type Case = crate::props::c05::StalledCase;
+	fn name(&self) -> &'static str {
+		"answer-while-send-stalled"
+	}
+	fn cases(&self, tier: Tier) -> u32 {
+		tier.pick(800, 8_000)
+	}
+	fn strategy(&self, tier: Tier) -> BoxedStrategy<Self::Case> {
+		crate::props::c05::StalledSend.strategy(tier)
+	}
+	fn run(&self, case: &Self::Case, obs: &mut Obs) {
+		let rt = rt();
+		let fails = rt.block_on(crate::props::c05::stalled_send_scenario(case));
+		obs.nontrivial();
+		for (s, d) in fails {
+			if s.starts_with("c03/") {
+				obs.fail(s, d);
+			}
+		}
+	}
+}
